@@ -1,4 +1,5 @@
 from lib.runner import PropCheck, Stream
+from lib import core
 
 
 def unhex(s):
@@ -334,7 +335,11 @@ class ConfineStream(Stream):
 
 class C12(PropCheck):
     pid = "C12"
+    lean_modules = ["C12", "C12Gen"]
     streams = [ViewStream(), RouterStream(), ConfineStream()]
+
+    def pre(self, ctx):
+        core.regenerate()
     level_text = ("Lean theorems over executable models of (1) the storage view: IsRelativePath transliterated with the Go index "
                   "arithmetic and proved equivalent to 'some /-separated segment is . or ..' (isRelativePath_spec), view_confined, "
                   "view_confined_segments, subview_compose, list_relative; (2) the router: route_longest_prefix, "
@@ -342,7 +347,9 @@ class C12(PropCheck):
                   "share no key); (3) the request path of the core: request_confined (every storage key a request touches lies in "
                   "the one mount routed for it, free of dot segments), cubbyhole_private (keyed by the requesting token's cubbyhole "
                   "id, over all request histories), policy_scoped_to_namespace + token_authorises_only_own_namespace_and_below, "
-                  "sealed_namespace_unreachable, and for nested separately sealed namespaces over all histories: seal_covers_descendant_barriers, unseal_parent_does_not_unseal_child, sealed_namespace_unreachable_histories. The full statement 'the serving mount belongs to the namespace the request was "
+                  "sealed_namespace_unreachable, (3b) the policy store's cache key RE-TRANSLATED from policy_store.go on every run "
+                  "(C12Gen: cache_key_injective, cached_policy_is_of_lookup_namespace — a policy name with '..' segments cannot select "
+                  "another namespace's cached policy; cleaned_join_key_cex for the path.Join key of finding F48, repaired), and for nested separately sealed namespaces over all histories: seal_covers_descendant_barriers, unseal_parent_does_not_unseal_child, sealed_namespace_unreachable_histories. The full statement 'the serving mount belongs to the namespace the request was "
                   "resolved to' is kept as request_in_resolved_namespace_full and REFUTED by two witnesses (finding F13). All three "
                   "models are tied to the Go code by differential streams on every run and the confinement predicate is evaluated "
                   "directly on the physical keys the real core touches per request")
